@@ -39,6 +39,9 @@ class SpecLib:
         self.revealed: set[str] = set()
         self.decls: dict[str, z3.FuncDeclRef] = {}
         self.sig: dict[str, tuple] = {}
+        self._apps_cache = {}
+        self._declared_all = False
+        self._under = {}
         self._inlining: list[str] = []
         self._ghost = None  # recogniser facts of the obligation being unfolded
 
@@ -156,7 +159,16 @@ class SpecLib:
         finally:
             self._ghost = None
 
+    def declare_all(self):
+        """declare every recursive / opaque spec function up front, so that applications created while
+        unfolding are recognised in the same pass"""
+        if not self._declared_all:
+            self._declared_all = True
+            for name in sorted(self.recursive | self.opaque):
+                self.decl(name)
+
     def _unfold(self, formulas, depth, successor):
+        self.declare_all()
         by_decl = {d.name(): n for n, d in self.decls.items()}
         done = set()
         facts = []
@@ -196,25 +208,51 @@ class SpecLib:
         return app == body.t
 
     def _apps(self, formulas, by_decl):
-        out, seen = [], set()
-
-        def walk(t, bound):
-            if t.get_id() in seen and not bound:
-                return
-            if not bound:
-                seen.add(t.get_id())
-            if z3.is_quantifier(t):
-                walk(t.body(), True)
-                return
-            if z3.is_app(t):
-                for ch in t.children():
-                    walk(ch, bound)
-                if t.decl().name() in by_decl and not _has_var(t):
-                    out.append(t)
-
+        res, have = [], set()
         for f in formulas:
-            walk(f, False)
-        return out
+            key = (f.get_id(), len(by_decl))
+            hit = self._apps_cache.get(key)
+            if hit is None:
+                hit = self._apps_one(f, by_decl)
+                self._apps_cache[key] = hit
+            for a in hit:
+                if a.get_id() not in have:
+                    have.add(a.get_id())
+                    res.append(a)
+        return res
+
+    def _apps_one(self, f, by_decl):
+        """ground applications of declared spec functions under f; memoised per sub-term id (formulas of one
+        run share almost all their sub-terms, so each distinct node is visited once per run)"""
+        memo = self._under
+        gen = len(by_decl)
+        stack = [(f, False)]
+        while stack:
+            t, done = stack.pop()
+            k = (t.get_id(), gen)
+            if k in memo:
+                continue
+            if z3.is_quantifier(t):
+                kids = [t.body()]
+            elif z3.is_app(t):
+                kids = t.children()
+            else:
+                memo[k] = ()
+                continue
+            if not done:
+                stack.append((t, True))
+                for ch in kids:
+                    if (ch.get_id(), gen) not in memo:
+                        stack.append((ch, False))
+                continue
+            acc = {}
+            for ch in kids:
+                for a in memo.get((ch.get_id(), gen), ()):
+                    acc[a.get_id()] = a
+            if z3.is_app(t) and t.decl().name() in by_decl and not _has_var(t):
+                acc[t.get_id()] = t
+            memo[k] = tuple(acc.values())
+        return list(memo[(f.get_id(), gen)])
 
 
 def _has_var(t):
